@@ -28,7 +28,7 @@ ASSUMPTIONS = [
 
 POSITIONS = ['first', 'after_pass', 'after_fail', 'after_skip', 'in_subtest', 'in_teardown', 'in_branch']
 RESULTS = ['NONE', 'CONTINUE', 'FAIL_AND_CONTINUE', 'SKIP', 'REPEAT', 'STOP', 'FAIL_SUBTEST', 'INVALID', 'INVALID_FALSE', 'INVALID_ZERO',
-           'INVALID_EMPTY', 'RAISE_O']
+           'INVALID_EMPTY', 'RAISE_O', 'EXIT']
 DIAGSETS = {
     'none': [],
     'pass': [{'emit': [[1, False, False]], 'af': False}],
